@@ -1,1 +1,747 @@
-fn main() {}
+//! C05 — offset packing is sound.
+//!
+//! Family G (hook `write_fonts::verif_hooks::pack_graph`): bounded-exhaustive enumeration of rooted
+//! DAGs (canonical: node i links only to j > i, every node reachable from node 0) over a size
+//! alphabet straddling the 16-bit limit and link widths {16,32} (+24 in thorough), with multi-edges
+//! and offset adjustments as stated in `run.bound`. Every graph is packed and serialised by the real
+//! packer and the bytes are *unfolded* by an independent decoder (`unfold`).
+//!
+//! Family P (public path, `write_fonts::dump_table`): real `Gpos` tables with PairPos / MarkBasePos
+//! lookups large enough to force sub-table splitting and extension promotion, decoded by an
+//! independent byte-level GPOS reader (`gpos_raw`) and compared with the input rules.
+
+mod gpos_raw;
+mod public_path;
+
+use rayon::prelude::*;
+use serde_json::{json, Value};
+use std::collections::{BTreeMap, HashMap, HashSet};
+use vcore::*;
+use write_fonts::verif_hooks::{pack_graph, LinkSpec, NodeSpec};
+
+fn main() {
+    main_for("C05", body)
+}
+
+/// Σ: sizes straddling the 16-bit offset limit
+const SMALL: [u32; 3] = [0, 2, 4];
+const LARGE: [u32; 4] = [0x7FFE, 0xFFFE, 0x10000, 0x18000];
+
+#[derive(Clone, Debug, PartialEq)]
+pub struct G {
+    pub n: usize,
+    /// nominal sizes; the real size is max(nominal, bytes needed by the node's own links)
+    pub sizes: Vec<u32>,
+    /// (from, to, width in bytes, adjustment); a node's links are laid out back to back from byte 0
+    /// in the order they appear here
+    pub edges: Vec<(u8, u8, u8, u8)>,
+    /// 0: object ids allocated in index order (root lowest); 1: non-root nodes get ids in reverse
+    /// index order (children before parents, as the real TableWriter does)
+    pub id_order: u8,
+}
+
+impl G {
+    fn real_size(&self, i: usize) -> u32 {
+        let need: u32 = self
+            .edges
+            .iter()
+            .filter(|e| e.0 as usize == i)
+            .map(|e| e.2 as u32)
+            .sum();
+        self.sizes[i].max(need)
+    }
+    fn fill(i: usize) -> u8 {
+        0xA1 + i as u8
+    }
+    /// (link position within parent, edge) for the links of node i
+    fn links_of(&self, i: usize) -> Vec<(u32, (u8, u8, u8, u8))> {
+        let mut pos = 0;
+        let mut out = vec![];
+        for e in self.edges.iter().filter(|e| e.0 as usize == i) {
+            out.push((pos, *e));
+            pos += e.2 as u32;
+        }
+        out
+    }
+    fn spec_index(&self, i: usize) -> usize {
+        if self.id_order == 0 || i == 0 {
+            i
+        } else {
+            self.n - i
+        }
+    }
+    fn to_specs(&self) -> Vec<NodeSpec> {
+        let mut specs: Vec<Option<NodeSpec>> = vec![None; self.n];
+        for i in 0..self.n {
+            let links = self
+                .links_of(i)
+                .into_iter()
+                .map(|(pos, e)| LinkSpec {
+                    target: self.spec_index(e.1 as usize),
+                    width: e.2,
+                    pos,
+                    adjustment: e.3 as u32,
+                })
+                .collect();
+            specs[self.spec_index(i)] = Some(NodeSpec {
+                size: self.real_size(i),
+                fill: G::fill(i),
+                links,
+            });
+        }
+        specs.into_iter().map(|s| s.unwrap()).collect()
+    }
+    fn to_json(&self) -> Value {
+        json!({"family":"graph","n":self.n,"sizes":self.sizes,
+               "edges": self.edges.iter().map(|e| json!([e.0,e.1,e.2,e.3])).collect::<Vec<_>>(),
+               "id_order": self.id_order})
+    }
+    fn from_json(v: &Value) -> G {
+        G {
+            n: v["n"].as_u64().unwrap_or(0) as usize,
+            sizes: v["sizes"].as_array().map(|a| a.iter().map(|x| x.as_u64().unwrap_or(0) as u32).collect()).unwrap_or_default(),
+            edges: v["edges"]
+                .as_array()
+                .map(|a| {
+                    a.iter()
+                        .map(|e| {
+                            let g = |i: usize| e[i].as_u64().unwrap_or(0) as u8;
+                            (g(0), g(1), g(2), g(3))
+                        })
+                        .collect()
+                })
+                .unwrap_or_default(),
+            id_order: v["id_order"].as_u64().unwrap_or(0) as u8,
+        }
+    }
+    /// short class description used in violation identities
+    fn class(&self) -> String {
+        let mut widths: Vec<u8> = self.edges.iter().map(|e| e.2 * 8).collect();
+        widths.sort();
+        widths.dedup();
+        let multi = {
+            let mut s = HashSet::new();
+            self.edges.iter().any(|e| !s.insert((e.0, e.1)))
+        };
+        let adj = self.edges.iter().any(|e| e.3 != 0);
+        // structural trigger of the defect family known on the unchanged tree (space roots that also
+        // have a narrow incoming link): kept in the identity so that a panic on a graph *without*
+        // this feature is a different finding
+        let mixed = (0..self.n).any(|j| {
+            self.edges.iter().any(|e| e.1 as usize == j && e.2 == 4)
+                && self.edges.iter().any(|e| e.1 as usize == j && e.2 != 4)
+        });
+        format!("node-with-wide-and-narrow-inlinks={} n={} widths={:?} multi-edge={} adjustment={}", mixed, self.n, widths, multi, adj)
+    }
+}
+
+// ---------------------------------------------------------------------------
+// the independent decoder
+// ---------------------------------------------------------------------------
+
+pub struct Unfolded {
+    /// copies found: (position, node)
+    pub copies: Vec<(u32, usize)>,
+    pub unreached_objects: usize,
+}
+
+/// Unfold `bytes` from offset 0 along the spec graph. Everything the property demands:
+/// * an offset of width w stored in a copy of p at position P resolves to P + adjustment + value;
+///   there, the next size(c) bytes are a copy of c (c's fill on every non-offset byte, and,
+///   recursively, c's own offsets resolve to copies of their targets);
+/// * every node of the spec graph is reached; no two distinct copies overlap; a copy coincides with
+///   one emitted object (start and size); the output is exactly the emitted objects back to back.
+fn unfold(g: &G, bytes: &[u8], order_sizes: &[u32]) -> Result<Unfolded, (String, String)> {
+    let e = |c: &str, d: String| Err((c.to_string(), d));
+    let total: u64 = order_sizes.iter().map(|s| *s as u64).sum();
+    if total != bytes.len() as u64 {
+        return e("output-length-differs-from-emitted-objects", format!("{} vs {}", bytes.len(), total));
+    }
+    // emitted objects by start position
+    let mut emitted: HashMap<u32, Vec<(u32, bool)>> = HashMap::new();
+    let mut at = 0u32;
+    for s in order_sizes {
+        emitted.entry(at).or_default().push((*s, false));
+        at += s;
+    }
+    let mut seen: HashSet<(u32, usize)> = HashSet::new();
+    let mut stack = vec![(0u32, 0usize)];
+    while let Some((pos, node)) = stack.pop() {
+        if !seen.insert((pos, node)) {
+            continue;
+        }
+        let size = g.real_size(node);
+        if pos as u64 + size as u64 > bytes.len() as u64 {
+            return e("offset-target-out-of-output", format!("node {node} at {pos} size {size} > {}", bytes.len()));
+        }
+        // it must be one of the emitted objects
+        // (prefer a not yet claimed one: several zero-size objects can share a start position)
+        let ok = emitted
+            .get_mut(&pos)
+            .map(|v| {
+                if let Some(slot) = v.iter_mut().find(|(s, used)| *s == size && !*used) {
+                    slot.1 = true;
+                    true
+                } else {
+                    v.iter().any(|(s, _)| *s == size)
+                }
+            })
+            .unwrap_or(false);
+        if !ok {
+            return e("offset-lands-inside-or-between-objects", format!("node {node} (size {size}) expected at {pos}"));
+        }
+        let links = g.links_of(node);
+        // content: fill on all non-offset bytes
+        let link_bytes: u32 = links.iter().map(|l| l.1 .2 as u32).sum();
+        let fill = G::fill(node);
+        let body = &bytes[(pos + link_bytes) as usize..(pos + size) as usize];
+        if let Some(i) = body.iter().position(|b| *b != fill) {
+            return e(
+                "offset-lands-on-wrong-object",
+                format!("node {node} expected at {pos}: byte +{} is {:#x}, want {:#x}", link_bytes as usize + i, body[i], fill),
+            );
+        }
+        for (lpos, (_, to, width, adj)) in links {
+            let p = (pos + lpos) as usize;
+            let raw = &bytes[p..p + width as usize];
+            let val = raw.iter().fold(0u64, |a, b| (a << 8) | *b as u64);
+            let target = pos as u64 + adj as u64 + val;
+            if target > bytes.len() as u64 {
+                return e("offset-target-out-of-output", format!("link {node}->{to} value {val} from {pos}"));
+            }
+            stack.push((target as u32, to as usize));
+        }
+    }
+    let mut reached = vec![false; g.n];
+    for (_, n) in &seen {
+        reached[*n] = true;
+    }
+    if let Some(m) = reached.iter().position(|r| !r) {
+        return e("reachable-object-missing", format!("node {m}"));
+    }
+    let mut copies: Vec<(u32, usize)> = seen.into_iter().collect();
+    copies.sort();
+    let solid: Vec<&(u32, usize)> = copies.iter().filter(|c| g.real_size(c.1) > 0).collect();
+    for w in solid.windows(2) {
+        if w[0].0 + g.real_size(w[0].1) > w[1].0 {
+            return e("objects-overlap", format!("node {} at {} and node {} at {}", w[0].1, w[0].0, w[1].1, w[1].0));
+        }
+    }
+    let unreached = emitted.values().flat_map(|v| v.iter()).filter(|(_, used)| !used).count();
+    Ok(Unfolded { copies, unreached_objects: unreached })
+}
+
+/// Brute force: does *some* plain topological order (no duplication) satisfy every link?
+/// Informational only (the property demands soundness, not completeness).
+fn plain_order_fits(g: &G) -> bool {
+    fn rec(g: &G, order: &mut Vec<usize>, used: &mut Vec<bool>) -> bool {
+        if order.len() == g.n {
+            let mut pos = vec![0u64; g.n];
+            let mut at = 0u64;
+            for &i in order.iter() {
+                pos[i] = at;
+                at += g.real_size(i) as u64;
+            }
+            return g.edges.iter().all(|e| {
+                let (f, t) = (e.0 as usize, e.1 as usize);
+                let max = (1u64 << (8 * e.2 as u32)) - 1;
+                pos[t] >= pos[f] + e.3 as u64 && pos[t] - pos[f] - e.3 as u64 <= max
+            });
+        }
+        for i in 1..g.n {
+            if used[i] {
+                continue;
+            }
+            // all parents placed?
+            if g.edges.iter().any(|e| e.1 as usize == i && !used[e.0 as usize]) {
+                continue;
+            }
+            used[i] = true;
+            order.push(i);
+            if rec(g, order, used) {
+                return true;
+            }
+            order.pop();
+            used[i] = false;
+        }
+        false
+    }
+    let mut used = vec![false; g.n];
+    used[0] = true;
+    rec(g, &mut vec![0], &mut used)
+}
+
+// ---------------------------------------------------------------------------
+// enumeration
+// ---------------------------------------------------------------------------
+
+/// pair index order: grouped by target j, source i ascending: (0,1),(0,2),(1,2),(0,3),...
+fn pairs(n: usize) -> Vec<(usize, usize)> {
+    let mut p = vec![];
+    for j in 1..n {
+        for i in 0..j {
+            p.push((i, j));
+        }
+    }
+    p
+}
+
+/// all shapes: per pair a state 0 (no edge) or 1..=nw (edge of width W[state-1]); every node j >= 1
+/// has an incoming edge (hence is reachable from 0 by induction)
+fn shapes(n: usize, nw: usize) -> Vec<Vec<u8>> {
+    let ps = pairs(n);
+    let mut out = vec![];
+    let mut cur = vec![0u8; ps.len()];
+    loop {
+        let ok = (1..n).all(|j| ps.iter().zip(&cur).any(|((_, t), s)| *t == j && *s != 0));
+        if ok {
+            out.push(cur.clone());
+        }
+        // increment mixed radix
+        let mut k = 0;
+        loop {
+            if k == cur.len() {
+                return out;
+            }
+            cur[k] += 1;
+            if cur[k] as usize <= nw {
+                break;
+            }
+            cur[k] = 0;
+            k += 1;
+        }
+    }
+}
+
+fn perms_nonroot(n: usize) -> Vec<Vec<usize>> {
+    // permutations of 0..n fixing 0
+    fn rec(cur: &mut Vec<usize>, used: &mut Vec<bool>, n: usize, out: &mut Vec<Vec<usize>>) {
+        if cur.len() == n {
+            out.push(cur.clone());
+            return;
+        }
+        for i in 1..n {
+            if !used[i] {
+                used[i] = true;
+                cur.push(i);
+                rec(cur, used, n, out);
+                cur.pop();
+                used[i] = false;
+            }
+        }
+    }
+    let mut out = vec![];
+    let mut used = vec![false; n];
+    used[0] = true;
+    rec(&mut vec![0], &mut used, n, &mut out);
+    out
+}
+
+/// relabel a shape with π (old index -> new index); None if some edge would point backwards
+fn relabel_shape(n: usize, shape: &[u8], pi: &[usize]) -> Option<Vec<u8>> {
+    let ps = pairs(n);
+    let mut idx = HashMap::new();
+    for (k, p) in ps.iter().enumerate() {
+        idx.insert(*p, k);
+    }
+    let mut out = vec![0u8; shape.len()];
+    for (k, (i, j)) in ps.iter().enumerate() {
+        if shape[k] == 0 {
+            continue;
+        }
+        let (a, b) = (pi[*i], pi[*j]);
+        if a >= b {
+            return None;
+        }
+        out[idx[&(a, b)]] = shape[k];
+    }
+    Some(out)
+}
+
+/// Isomorphism reduction (relabelling of non-root nodes): keep a shape iff it is the
+/// lexicographically smallest among its valid relabellings; return it with its automorphisms.
+fn canonical_shapes(n: usize, nw: usize) -> Vec<(Vec<u8>, Vec<Vec<usize>>)> {
+    let perms = perms_nonroot(n);
+    shapes(n, nw)
+        .into_par_iter()
+        .filter_map(|s| {
+            let mut auts = vec![];
+            for pi in &perms {
+                if let Some(r) = relabel_shape(n, &s, pi) {
+                    if r < s {
+                        return None;
+                    }
+                    if r == s {
+                        auts.push(pi.clone());
+                    }
+                }
+            }
+            Some((s, auts))
+        })
+        .collect()
+}
+
+/// sizes are canonical under the shape's automorphisms iff no automorphism gives a smaller vector
+fn sizes_canonical(sizes: &[u32], auts: &[Vec<usize>]) -> bool {
+    auts.iter().all(|pi| {
+        let mut r = vec![0u32; sizes.len()];
+        for (i, s) in sizes.iter().enumerate() {
+            r[pi[i]] = *s;
+        }
+        r.as_slice() >= sizes
+    })
+}
+
+fn size_vectors(n: usize, small: &[u32], large: &[u32], max_large: usize) -> Vec<Vec<u32>> {
+    let mut out: Vec<Vec<u32>> = vec![vec![]];
+    for _ in 0..n {
+        let mut next = vec![];
+        for v in &out {
+            let nl = v.iter().filter(|s| large.contains(s)).count();
+            for s in small {
+                let mut v2 = v.clone();
+                v2.push(*s);
+                next.push(v2);
+            }
+            if nl < max_large {
+                for s in large {
+                    let mut v2 = v.clone();
+                    v2.push(*s);
+                    next.push(v2);
+                }
+            }
+        }
+        out = next;
+    }
+    out
+}
+
+fn edges_of_shape(n: usize, shape: &[u8], widths: &[u8]) -> Vec<(u8, u8, u8, u8)> {
+    let ps = pairs(n);
+    let mut e = vec![];
+    for i in 0..n {
+        for (k, (a, b)) in ps.iter().enumerate() {
+            if *a == i && shape[k] != 0 {
+                e.push((*a as u8, *b as u8, widths[shape[k] as usize - 1], 0u8));
+            }
+        }
+    }
+    e
+}
+
+#[derive(Clone, Copy, PartialEq)]
+enum Variants {
+    /// the plain graph only
+    Plain,
+    /// plain + one multi-edge (edge k doubled, second link of any width) + adjustment 2 on one edge
+    OneDeviation,
+    /// additionally both at once (any doubled edge x any adjusted original edge)
+    TwoDeviations,
+}
+
+fn variants(base: &[(u8, u8, u8, u8)], widths: &[u8], v: Variants) -> Vec<Vec<(u8, u8, u8, u8)>> {
+    let mut out = vec![base.to_vec()];
+    if v == Variants::Plain {
+        return out;
+    }
+    let dup = |e: &[(u8, u8, u8, u8)], k: usize, w: u8| {
+        let mut e2 = e.to_vec();
+        let mut extra = e[k];
+        extra.2 = w;
+        extra.3 = 0;
+        e2.insert(k + 1, extra);
+        e2
+    };
+    for k in 0..base.len() {
+        for w in widths {
+            out.push(dup(base, k, *w));
+        }
+    }
+    for k in 0..base.len() {
+        let mut e2 = base.to_vec();
+        e2[k].3 = 2;
+        out.push(e2);
+    }
+    if v == Variants::TwoDeviations {
+        for a in 0..base.len() {
+            let mut adj = base.to_vec();
+            adj[a].3 = 2;
+            for k in 0..base.len() {
+                for w in widths {
+                    out.push(dup(&adj, k, *w));
+                }
+            }
+        }
+    }
+    out
+}
+
+#[derive(Default)]
+struct Local {
+    all: HashSet<u64>,
+    nontrivial: HashSet<u64>,
+    c: BTreeMap<&'static str, u64>,
+}
+impl Local {
+    fn bump(&mut self, k: &'static str) {
+        *self.c.entry(k).or_insert(0) += 1;
+    }
+}
+
+fn run_graph(run: &Run, g: &G, l: &mut Local) {
+    l.bump("graphs");
+    let specs = g.to_specs();
+    let out = match guard(|| pack_graph(&specs)) {
+        Ok(o) => o,
+        Err(p) => {
+            l.bump("panics");
+            run.violation(
+                &format!("pack_graph panic: {} [{}] ({})", p.kind().split_whitespace().collect::<Vec<_>>().join(" "), p.site(), g.class()),
+                &format!("{} at {}:{}", p.message, p.file, p.line),
+                g.to_json(),
+            );
+            return;
+        }
+    };
+    if !out.packed {
+        l.bump("refused");
+        let mut h = Fnv::new();
+        h.str("refused");
+        h.u64(g.n as u64);
+        l.all.insert(h.finish());
+        if g.n <= 5 && plain_order_fits(g) {
+            l.bump("refused_though_a_plain_order_fits(info:incompleteness)");
+        }
+        return;
+    }
+    l.bump("packed");
+    if !out.basic_sort_sufficed {
+        l.bump("packed_after_overflow_resolution");
+    }
+    let bytes = out.bytes.as_deref().unwrap_or(&[]);
+    match unfold(g, bytes, &out.order_sizes) {
+        Ok(u) => {
+            // outcome digest: the layout (sequence of node copies)
+            let mut h = Fnv::new();
+            h.u64(out.basic_sort_sufficed as u64);
+            for (_, n) in &u.copies {
+                h.u64(*n as u64);
+            }
+            // large/small pattern so that different size classes count as different outcomes
+            for i in 0..g.n {
+                h.u64((g.real_size(i) >= 0x7FFE) as u64);
+            }
+            l.all.insert(h.finish());
+            if !out.basic_sort_sufficed {
+                l.nontrivial.insert(h.finish());
+            }
+            if u.copies.len() > g.n {
+                l.bump("packed_with_duplicated_objects");
+            }
+            if u.unreached_objects > 0 {
+                l.bump("outputs_with_unreferenced_objects(info)");
+            }
+        }
+        Err((class, detail)) => {
+            run.violation(
+                &format!("pack_graph: {class} ({})", g.class()),
+                &detail,
+                g.to_json(),
+            );
+        }
+    }
+}
+
+struct Family<'a> {
+    name: &'static str,
+    n: usize,
+    widths: &'a [u8],
+    sizes: Vec<Vec<u32>>,
+    variants: Variants,
+    iso_reduce: bool,
+    id_orders: &'a [u8],
+}
+
+fn run_family(run: &Run, f: &Family) {
+    let shapes: Vec<(Vec<u8>, Vec<Vec<usize>>)> = if f.iso_reduce {
+        canonical_shapes(f.n, f.widths.len())
+    } else {
+        shapes(f.n, f.widths.len()).into_iter().map(|s| (s, vec![])).collect()
+    };
+    // work items: (shape, chunk of size vectors)
+    let chunk = 64usize;
+    let nchunks = (f.sizes.len() + chunk - 1) / chunk;
+    let items: Vec<(usize, usize)> = (0..shapes.len())
+        .flat_map(|s| (0..nchunks).map(move |c| (s, c)))
+        .collect();
+    let locals: Vec<Local> = items
+        .par_iter()
+        .fold(Local::default, |mut l, (s, c)| {
+            let (shape, auts) = &shapes[*s];
+            let base = edges_of_shape(f.n, shape, f.widths);
+            let vars = variants(&base, f.widths, f.variants);
+            for sizes in f.sizes[c * chunk..].iter().take(chunk) {
+                if f.iso_reduce && !sizes_canonical(sizes, auts) {
+                    continue;
+                }
+                for edges in &vars {
+                    for id_order in f.id_orders {
+                        let g = G { n: f.n, sizes: sizes.clone(), edges: edges.clone(), id_order: *id_order };
+                        run_graph(run, &g, &mut l);
+                    }
+                }
+            }
+            l
+        })
+        .collect();
+    let mut graphs = 0;
+    for l in &locals {
+        run.observe_many(&l.all, &l.nontrivial);
+        for (k, v) in &l.c {
+            run.count(k, *v);
+            if *k == "graphs" {
+                graphs += v;
+            }
+        }
+    }
+    run.evals(graphs);
+    run.trans(graphs * 2); // pack_objects + serialize
+    run.count(&format!("graphs[{}]", f.name), graphs);
+    run.count(&format!("shapes[{}]", f.name), shapes.len() as u64);
+    println!("  family {}: {} shapes, {} graphs, t={:.1}s", f.name, shapes.len(), graphs, run.elapsed());
+}
+
+fn body(run: &Run, replay: Option<&Value>) {
+    run.rule("G: a case is one rooted DAG (shape x per-node size x link widths x multi-edge/adjustment variant x object-id order) packed and serialised by the real packer; P: one Gpos value compiled by dump_table. distinct outcomes = distinct final layouts (sequence of object copies incl. duplicates, size-class pattern, whether the first sort sufficed); non-trivial = the first sort overflowed and the packer had to assign spaces / duplicate / split / promote");
+    run.assume("the hook builds the Graph exactly as Graph::from_objects would for real TableData (one TableData per NodeSpec, fill bytes, OffsetRecords as given)");
+    run.assume("offset base semantics: an offset stored in an object at position P with adjustment a resolves to P + a + value (what Graph::serialize writes and what the OpenType tables using adjustments read)");
+    if let Some(case) = replay {
+        if case["family"] == "graph" {
+            let g = G::from_json(case);
+            let mut l = Local::default();
+            run_graph(run, &g, &mut l);
+            println!("replay counters: {:?}", l.c);
+        } else {
+            public_path::replay(run, case);
+        }
+        return;
+    }
+    // development aid only: C05_ONLY=public|graph restricts the run (never set by ./check)
+    let only = std::env::var("C05_ONLY").unwrap_or_default();
+    if only == "public" {
+        run.cap_hit("C05_ONLY=public: graph family skipped");
+        public_path::run_all(run);
+        return;
+    }
+    let quick = run.tier == Tier::Quick;
+    let w2: [u8; 2] = [2, 4];
+    let w3: [u8; 3] = [2, 3, 4];
+    run.bound("size_alphabet", json!({"small": SMALL, "large": LARGE}));
+    run.bound("widths_bits", json!(if quick { vec![16, 32] } else { vec![16, 24, 32] }));
+    let all7: Vec<u32> = SMALL.iter().chain(LARGE.iter()).copied().collect();
+
+    // determinism self-test: the first graphs twice
+    {
+        let f3 = shapes(3, 2);
+        for s in f3.iter().take(16) {
+            let g = G { n: 3, sizes: vec![4, 0x10000, 0xFFFE], edges: edges_of_shape(3, s, &w2), id_order: 0 };
+            let a = guard(|| pack_graph(&g.to_specs())).ok().map(|o| (o.packed, o.bytes.map(|b| digest_of(&b))));
+            let b = guard(|| pack_graph(&g.to_specs())).ok().map(|o| (o.packed, o.bytes.map(|b| digest_of(&b))));
+            if a != b {
+                run.machinery_error("pack_graph is not deterministic for the same spec");
+            }
+        }
+    }
+
+    // --- N <= 3: everything, two deviations, both id orders
+    for n in 1..=3 {
+        run_family(run, &Family {
+            name: ["", "n1_full", "n2_full", "n3_full"][n],
+            n,
+            widths: if quick { &w2 } else { &w3 },
+            sizes: size_vectors(n, &all7, &[], 0),
+            variants: Variants::TwoDeviations,
+            iso_reduce: false,
+            id_orders: &[0, 1],
+        });
+    }
+    // --- N = 4 plain: all shapes x all 7^4 sizes
+    run_family(run, &Family {
+        name: "n4_plain_full_sizes",
+        n: 4,
+        widths: &w2,
+        sizes: size_vectors(4, &all7, &[], 0),
+        variants: Variants::Plain,
+        iso_reduce: false,
+        id_orders: if quick { &[0] } else { &[0, 1] },
+    });
+    if quick {
+        // N = 4 with one multi-edge or one adjustment, sizes {4, 0x7FFE, 0xFFFE, 0x10000}
+        run_family(run, &Family {
+            name: "n4_one_deviation_4sizes",
+            n: 4,
+            widths: &w2,
+            sizes: size_vectors(4, &[4, 0x7FFE, 0xFFFE, 0x10000], &[], 0),
+            variants: Variants::OneDeviation,
+            iso_reduce: false,
+            id_orders: &[0],
+        });
+        // N = 5, <= 2 large nodes, isomorphic relabellings removed
+        run_family(run, &Family {
+            name: "n5_iso_le2large_small{4}_large{7FFE,FFFE,10000}",
+            n: 5,
+            widths: &w2,
+            sizes: size_vectors(5, &[4], &[0x7FFE, 0xFFFE, 0x10000], 2),
+            variants: Variants::Plain,
+            iso_reduce: true,
+            id_orders: &[0],
+        });
+        run.bound("graph_families", json!("N<=3: all shapes x 7 sizes x {plain, one multi-edge, one adjustment=2, both} x both id orders; N=4: all 416 shapes x 7^4 sizes plain, and x {4,7FFE,FFFE,10000}^4 with one multi-edge or one adjustment; N=5: shapes up to relabelling x (<=2 large nodes from {7FFE,FFFE,10000}, others size 4)"));
+    } else {
+        run_family(run, &Family {
+            name: "n4_w24_plain_full_sizes",
+            n: 4,
+            widths: &w3,
+            sizes: size_vectors(4, &all7, &[], 0),
+            variants: Variants::Plain,
+            iso_reduce: false,
+            id_orders: &[0],
+        });
+        run_family(run, &Family {
+            name: "n4_one_deviation_full_sizes",
+            n: 4,
+            widths: &w2,
+            sizes: size_vectors(4, &all7, &[], 0),
+            variants: Variants::OneDeviation,
+            iso_reduce: false,
+            id_orders: &[0],
+        });
+        run_family(run, &Family {
+            name: "n5_iso_le3large_small{0,4}",
+            n: 5,
+            widths: &w2,
+            sizes: size_vectors(5, &[0, 4], &LARGE, 3),
+            variants: Variants::Plain,
+            iso_reduce: true,
+            id_orders: &[0],
+        });
+        run_family(run, &Family {
+            name: "n6_iso_le2large_small{4}_large{FFFE,10000}",
+            n: 6,
+            widths: &w2,
+            sizes: size_vectors(6, &[4], &[0xFFFE, 0x10000], 2),
+            variants: Variants::Plain,
+            iso_reduce: true,
+            id_orders: &[0],
+        });
+        run.bound("graph_families", json!("N<=3: all shapes (widths 16/24/32) x 7 sizes x {plain, one multi-edge, one adjustment=2, both} x both id orders; N=4: all shapes x 7^4 sizes plain (both id orders; also with 24-bit links), and with one multi-edge or one adjustment; N=5: shapes up to relabelling x (<=3 large nodes from the 4 large sizes, others {0,4}); N=6: shapes up to relabelling x (<=2 large nodes from {FFFE,10000}, others size 4)"));
+    }
+    run.sample(G { n: 4, sizes: vec![4, 0x10000, 0xFFFE, 2], edges: vec![(0, 1, 4, 0), (0, 2, 2, 0), (1, 3, 2, 0), (2, 3, 2, 0)], id_order: 0 }.to_json());
+
+    // --- public path
+    if only == "graph" {
+        run.cap_hit("C05_ONLY=graph: public-path family skipped");
+        return;
+    }
+    public_path::run_all(run);
+}
